@@ -263,7 +263,13 @@ func lastLines(s string, n int) string {
 // "FAIL: ..", "SKIP: ..") - worker death by memory exhaustion is "SKIP: resource", a crash or a reproducible hang is a
 // failure carrying the stderr signature.
 func isolated(op string, args []string, data []byte) string {
-	resp, st, detail := callWorker(op, args, data, 60*time.Second)
+	return isolatedWithin(60*time.Second, op, args, data)
+}
+
+// isolatedWithin: as isolated, with another budget for "does not return" (a batched call legitimately burns more CPU than
+// a single decode).
+func isolatedWithin(budget time.Duration, op string, args []string, data []byte) string {
+	resp, st, detail := callWorker(op, args, data, budget)
 	switch st {
 	case callOK:
 		return resp
@@ -275,9 +281,9 @@ func isolated(op string, args []string, data []byte) string {
 		return "SKIP: slow run on a busy machine, given up after 10 minutes without a verdict: " + firstLine(detail)
 	default:
 		// confirm the hang on a fresh worker before believing it
-		_, st2, detail2 := callWorker(op, args, data, 60*time.Second)
+		_, st2, detail2 := callWorker(op, args, data, budget)
 		if st2 == callHang {
-			return fmt.Sprintf("FAIL: %s %s did not return (60 s of CPU burned, or 60 s elapsed with the worker idle), twice (goroutine dump):\n%s", op, clipS(fmt.Sprint(args)), detail2)
+			return fmt.Sprintf("FAIL: %s %s did not return (%v of CPU burned, or %v elapsed with the worker idle), twice (goroutine dump):\n%s", op, clipS(fmt.Sprint(args)), budget, budget, detail2)
 		}
 		return "SKIP: one slow run, not reproduced"
 	}
